@@ -203,7 +203,7 @@ pub fn check_program(ctx: &Ctx, p: &Prog, pools: &Pools, plan2: &Plan2, stats: &
             return;
         }
     };
-    let has_matmul_const = p.ops.iter().any(|o| o.kind == OpK::MatMul);
+    let has_matmul_const = p.ops.iter().any(|o| matches!(o.kind, OpK::MatMul | OpK::IfMMThen | OpK::IfMMElse));
     let l_prepack = if has_matmul_const { subject::load(p, LoadCfg { prepack: true, ..Default::default() }).ok() } else { None };
     let mut any_ok = false;
     for fill in 0..2usize {
@@ -287,7 +287,7 @@ fn dflt_cfg<'a>() -> RunCfg<'a> {
 pub fn program_box(ctx: &Ctx) -> Vec<Prog> {
     let full = [
         OpK::Relu, OpK::Identity, OpK::Transpose, OpK::Split, OpK::Add, OpK::Sub, OpK::Mul, OpK::MatMul, OpK::Concat,
-        OpK::IfAdd, OpK::IfSub,
+        OpK::IfAdd, OpK::IfSub, OpK::IfMMThen, OpK::IfMMElse,
     ];
     let mut progs = Vec::new();
     prog::enumerate(2, 1, 1, &full, &mut progs);
@@ -387,7 +387,7 @@ pub fn run(ctx: Ctx) -> ! {
     let cov = json!({
         "evaluations": st.runs + child_runs,
         "distinct_nontrivial": st.programs_ref_ok,
-        "rule": "all programs of the grammar (<=2 ops over 11 operator kinds incl. If-with-captures; 3 ops over a reduced kind set, dead-code-free; thorough adds 4 ops) x 2 input fills; non-trivial = programs for which the naive evaluator produces at least one operator output",
+        "rule": "all programs of the grammar (<=2 ops over 13 operator kinds incl. If with captures and If with branch-local MatMul weights; 3 ops over a reduced kind set, dead-code-free; thorough adds 4 ops) x 2 input fills; non-trivial = programs for which the naive evaluator produces at least one operator output",
         "samples": samples.take(),
         "exhaustive": true,
         "programs": st.programs,
